@@ -1,6 +1,7 @@
 """C18 - every connection error emits exactly one GOAWAY with the RFC-mandated code."""
 from .base import Monitor
 from .. import codec as C
+from ..rules import maybe_forgotten
 
 MAXW = 2 ** 31 - 1
 
@@ -8,6 +9,9 @@ MAXW = 2 ** 31 - 1
 class C18(Monitor):
     prop = 'C18'
     name = 'goaway'
+
+    def start(self, w):
+        self.knob = w.cfg['knobs'].get('MAX_CLOSED_STREAMS', 65536)
 
     def on_step(self, w, s):
         if s.kind != 'recv' or s.ok or not s.exc['proto']:
@@ -86,6 +90,11 @@ class C18(Monitor):
             lim = mine.get(C.S_MAX_HEADER_LIST_SIZE)
             if f.headers is not None and lim is not None and f.header_list_size > lim and f.header_list_size > 65536:
                 return C.ENHANCE_YOUR_CALM, 'header list larger than MAX_HEADER_LIST_SIZE'
+            if (f.type == C.HEADERS and pre is not None and pre.state == 'closed' and pre.closed_by == 'end'
+                    and not f.hpack_error and f.headers is not None
+                    and not maybe_forgotten(trk, pre, self.knob)):
+                # RFC 7540 5.1: HEADERS on a stream both sides have finished is a connection error STREAM_CLOSED
+                return C.STREAM_CLOSED, 'HEADERS on a stream closed by END_STREAM'
             return None, None
         if f.type == C.DATA:
             if f.fc_len > s.snap['conn_recv'] and f.fc_len > 0:
